@@ -319,6 +319,29 @@ def lifecycle(rep, u, vals):
                 (rep.proved if ok else rep.violated)(
                     "R-SIB", fc, "cursor-saturation:%s#%d" % (l["f"], per), "%s: the cursor '%s' saturates at the buffer capacity" % (fc.name, l["f"]),
                     "" if ok else "it is clamped to '%s': a window above that mark makes the cursor jump backwards after the first transfer" % r.get("f"), x.get("ln"))
+    # one-shot handlers: a user callback whose result is discarded cannot ask for another round, so the handler must have removed
+    # both registrations (I/O event and timeout timer) before it reports the outcome - otherwise the other one fires later
+    # and the outcome is reported twice
+    nvoid = 0
+    for fc in u.function_list:
+        if fc.relfile() != tp.TASK_C or not fc.has_cfg:
+            continue
+        stops = [pos for pos, root, c, ps in fc.calls({"tp_task_stop"})]
+        for pos, root, c, ps in fc.calls():
+            if c.get("fn"):
+                continue
+            if "cb_func" not in key(c.get("callee") or c.get("f") or c):
+                continue
+            if any(p_.get("k") not in ("cast", "paren") for p_ in ps):
+                continue                    # the result is used (the CONTINUE / re-arm protocol of the other handlers)
+            nvoid += 1
+            rep.functions.add(fc.name)
+            ok = any(fc.pos_dominates(sp, pos) for sp in stops)
+            (rep.proved if ok else rep.violated)(
+                "R-PAIR", fc, "stop-before-void-callback#%d" % nvoid, "%s: the user callback that cannot ask to continue is called only after tp_task_stop" % fc.name,
+                "" if ok else "no tp_task_stop call dominates the callback at line %s: a registration that is still armed (the timeout timer after "
+                "a successful connect) fires later and the outcome is reported a second time" % c.get("ln"), c.get("ln"))
+    rep.floor("void user callbacks", nvoid, 2)
     rep.floor("saturating cursor updates", nsat, 3)
     fx = tp.need(u, "tp_task_start_ex")
     rep.functions.add(fx.name)
